@@ -16,27 +16,13 @@ Record case := {
   disjoint_claim : bool             (* radius chosen automatically: spheres must not overlap *)
 }.
 
-Definition within (D : Z) (G : gram) (K : Z) (p s : V3) (r : Z * Z) (f : Z * Z) : bool :=
-  dist2 D G K p s * snd r * snd f <? fst r * fst f.
-
-Fixpoint adm_from (D : Z) (G : gram) (K : Z) (f : Z * Z) (k : Z) (ss : list V3) (rs : list (Z * Z)) (p : V3) : list Z :=
-  match ss, rs with
-  | s :: ss', r :: rs' => (if within D G K p s r f then [k] else []) ++ adm_from D G K f (k + 1) ss' rs' p
-  | _, _ => []
-  end.
-
-Definition ok_state (adm : list Z) (st : Z) : bool :=
-  (st =? -99) || match adm with [] => st =? -1 | _ => existsb (Z.eqb st) adm end.
-
 Definition check (c : case) : bool :=
   let G := gram_of (M c) in
   window_ok (M c) (K c)
   && forall2b (fun p st => ok_state (adm_from (D c) G (K c) (1, 1) 0 (sites c) (r2 c) p) st) (pos c) (states c)
   && forall2b (fun p st => ok_state (adm_from (D c) G (K c) (f2 c) 0 (sites c) (r2 c) p) st) (pos c) (inner c)
   && (if disjoint_claim c
-      then forallb (fun s => forallb (fun t => (qf G (vsub3 s t) =? 0)
-                                               || forallb (fun r => 4 * fst r <=? dist2 (D c) G (K c) s t * snd r) (r2 c))
-                                     (sites c)) (sites c)
+      then forallb (spheres_disjoint (D c) G (K c) (sites c)) (r2 c)
       else true).
 
 Definition bad (cs : list case) : list nat := false_idx (map check cs).
